@@ -16,27 +16,28 @@ Steps == ndJsonDeserialize(IOEnv.TR_STEPS)
 Cfg   == JsonDeserialize(IOEnv.TR_CFG)
 EnvNat(s) == CHOOSE n \in 0..5000 : ToString(n) = s
 K == [interval |-> EnvNat(IOEnv.TR_INTERVAL), maxReorg |-> EnvNat(IOEnv.TR_MAXREORG),
-      trusted |-> SeqSet(Cfg.trusted),
+      trusted |-> SeqSet(Cfg.trusted), deep |-> Cfg.deep,
       popFirst |-> IOEnv.TR_POP_FIRST = "true", keepDecode |-> IOEnv.TR_KEEP_DECODE = "true"]
 KAtomic == [K EXCEPT !.popFirst = FALSE, !.keepDecode = FALSE]
 
-FromJson(j) == [h |-> j.h, tip |-> j.tip, win |-> j.win,
+FromJson(j) == [h |-> j.h, tip |-> j.tip, win |-> j.win, anc |-> j.anc,
                 ls |-> [k \in DOMAIN j.ls |-> [w |-> SeqSet(j.ls[k].w), s |-> SeqSet(j.ls[k].s),
                                                tw |-> j.ls[k].tw, m |-> j.ls[k].m]],
                 tds |-> FALSE, mds |-> FALSE]
-Clean(o) == [h |-> o.h, tip |-> o.tip, win |-> o.win, ls |-> o.ls, tds |-> FALSE, mds |-> FALSE]
+Clean(o) == [h |-> o.h, tip |-> o.tip, win |-> o.win, anc |-> o.anc, ls |-> o.ls, tds |-> FALSE, mds |-> FALSE]
 
 VARIABLES l,       \* next line
           g,       \* ghost monitors
           cur,     \* specification state (observable part as recorded, hidden part as predicted)
           base,    \* observed state before the current run of refused requests
           prevok,  \* was the previous request of this sequence accepted
-          bad      \* [div, move, frame, later]: sets of offending lines
+          bad      \* [div, move, post, frame, later]: sets of offending lines (post: the
+                   \* move lines whose request was allowed but left the wrong tip/height/window)
 vars == <<l, g, cur, base, prevok, bad>>
 
 NoState == [h |-> -1]
 Init == /\ l = 1 /\ g = InitGhost /\ cur = NoState /\ base = NoState /\ prevok = 1
-        /\ bad = [div |-> {}, move |-> {}, frame |-> {}, later |-> {}]
+        /\ bad = [div |-> {}, move |-> {}, post |-> {}, frame |-> {}, later |-> {}]
 
 Walk ==
   /\ l <= Len(Steps)
@@ -58,12 +59,13 @@ Walk ==
      /\ g' = [moveOK |-> g.moveOK /\ g1.moveOK, frameOK |-> g.frameOK /\ g1.frameOK,
               laterOK |-> g.laterOK /\ laterOK]
      /\ cur' = IF resp.ok = 2 THEN c0
-               ELSE [h |-> post.h, tip |-> post.tip, win |-> post.win, ls |-> post.ls,
+               ELSE [h |-> post.h, tip |-> post.tip, win |-> post.win, anc |-> post.anc, ls |-> post.ls,
                      tds |-> o.s.tds, mds |-> o.s.mds]
      /\ base' = b0
      /\ prevok' = IF resp.ok = 1 THEN 1 ELSE 0
      /\ bad' = [div   |-> IF conf THEN bad.div ELSE bad.div \cup {l},
                 move  |-> IF g1.moveOK THEN bad.move ELSE bad.move \cup {l},
+                post  |-> IF resp.ok # 2 /\ PostWrong(K, Obs(pre), r, resp, post) THEN bad.post \cup {l} ELSE bad.post,
                 frame |-> IF g1.frameOK THEN bad.frame ELSE bad.frame \cup {l},
                 later |-> IF laterOK THEN bad.later ELSE bad.later \cup {l}]
   /\ l' = l + 1
@@ -77,6 +79,7 @@ Finish ==
         [steps |-> Len(Steps),
          divergences |-> SetToSeq({Describe(i) : i \in bad.div}),
          move_bad  |-> SetToSeq({Describe(i) : i \in bad.move}),
+         post_bad  |-> SetToSeq({i : i \in bad.post}),
          frame_bad |-> SetToSeq({Describe(i) : i \in bad.frame}),
          later_bad |-> SetToSeq({Describe(i) : i \in bad.later})])
   /\ l' = l + 1
